@@ -31,7 +31,7 @@ TOL = 2e-5
 
 def gen_cases(seed, tier):
     rng = np.random.default_rng([seed, 18])
-    n = 300 if tier == "quick" else 3000
+    n = 300 if tier == "quick" else 9000
     depth = 2 if tier == "quick" else 3
     cases = []
     for i in range(n):
